@@ -377,6 +377,9 @@ func ratIsIdentity(m [][]*big.Rat) (bool, string) {
 func (c *Ctx) checkClosedFormEigens() {
 	L := c.L
 	c.checkExpTermsFilled("exp-terms-filled")
+	L.Rule("validate-before-store", "an initialiser that rejects an argument with an error has not stored anything into its receiver on the way to that error return")
+	c.checkValidateBeforeStore("validate-before-store", c.fn("models/protein", "*ProtModel", "InitModel"))
+	L.Floor("validate-before-store", 1, "the protein model initialiser")
 	c.checkNoLibraryGlobalWrites("library-global-state")
 	L.Rule("eigen-literal", "the literal right and left eigenvector matrices of a closed-form model satisfy R·L = I exactly (rational arithmetic on the source constants); the first eigenvalue is the constant 0, the first row of L is the stationary distribution and the first column of R is all ones; for JC R·diag(λ)·L equals the Jukes-Cantor generator with off-diagonal 1/3 and diagonal -1")
 	for _, mname := range []string{"JCModel", "K2PModel"} {
